@@ -110,7 +110,8 @@ Proof. induction l as [|x r IH]; [reflexivity|]. cbn [map filter]. unfold r_attr
 Lemma attrvalue_texts l : map (fun v => chardata (node_kids v)) (map r_attrvalue l) = map av_value l.
 Proof.
   induction l as [|x r IH]; [reflexivity|]. cbn [map]. rewrite IH. f_equal.
-  unfold r_attrvalue. cbn [node_kids]. apply chardata_txt.
+  unfold r_attrvalue. cbn [node_kids]. destruct (av_nameid x); [|apply chardata_txt].
+  unfold r_nameid. cbn [chardata]. apply app_nil_r_s.
 Qed.
 Lemma un_attrvals_render a :
   un_attrvals (r_attrstmt a) = flat_map (fun x => map av_value (at_values x)) (a_attributes a).
